@@ -137,6 +137,20 @@ func CompareFind(fo *FindObs, want []b6.FeatureID, out *[]Symptom) {
 		add("panic", "%s panicked: %s", fo.Q, fo.Panic)
 		return
 	}
+	// fast path: want is strictly increasing by construction, so equality of
+	// the sequences is the whole demand
+	if len(fo.IDs) == len(want) {
+		same := true
+		for i := range want {
+			if fo.IDs[i] != want[i] {
+				same = false
+				break
+			}
+		}
+		if same {
+			return
+		}
+	}
 	for i := 1; i < len(fo.IDs); i++ {
 		if fo.IDs[i] == fo.IDs[i-1] {
 			add("duplicate", "%s returned %s twice: [%s]", fo.Q, IDName(fo.IDs[i]), idNames(fo.IDs))
@@ -275,6 +289,11 @@ func C12Queries() []wk.RQ {
 // C03Atoms are the atoms of the query menus run at the states of the search.
 func C03Atoms() []wk.RQ {
 	return []wk.RQ{{Op: "all"}, {Op: "tagged", Key: "#s", Val: "x"}, {Op: "tagged", Key: "#s", Val: "y"}, {Op: "keyed", Key: "#s"}, {Op: "keyed", Key: "@t"}}
+}
+
+// C03AtomsDeep are the atoms of the depth-3 menus (pruned).
+func C03AtomsDeep() []wk.RQ {
+	return []wk.RQ{{Op: "all"}, {Op: "tagged", Key: "#s", Val: "x"}, {Op: "keyed", Key: "#s"}, {Op: "keyed", Key: "@t"}}
 }
 
 var QueryTypes = []b6.FeatureType{b6.FeatureTypePoint, b6.FeatureTypePath, b6.FeatureTypeArea, b6.FeatureTypeRelation}
